@@ -436,6 +436,12 @@ func main() {
 			results[i] = runShard(bin, id, tier, c, i, shards, dir, timeout)
 		}(i)
 	}
+	// the extra runs (32-bit process, library build tags) repeat the share of one shard; in the thorough tier a quarter of it - a
+	// 32-bit process is slower, and the extra runs must not be what the tier waits for
+	extraDiv := 1
+	if tier == "thorough" {
+		extraDiv = 4
+	}
 	if c.arch32 && os.Getenv("VERIF_NO_ARCH32") == "" {
 		// the share of one shard (chosen by the seed) once more, as a 32-bit process
 		bin32 := build32(id, c)
@@ -445,7 +451,7 @@ func main() {
 		wg.Add(1)
 		go func() {
 			defer wg.Done()
-			*slot = runShard(bin32, id, tier, c, k, shards, dir, timeout, "386")
+			*slot = runShard(bin32, id, tier, c, k*extraDiv, shards*extraDiv, dir, timeout, "386")
 		}()
 	}
 	// ... and once more under every custom build tag the library's sources are constrained by (none on the unchanged tree)
@@ -465,7 +471,7 @@ func main() {
 			wg.Add(1)
 			go func(tag string) {
 				defer wg.Done()
-				*slot = runShard(tbin, id, tier, c, k, shards, dir, timeout, "tag-"+tag)
+				*slot = runShard(tbin, id, tier, c, k*extraDiv, shards*extraDiv, dir, timeout, "tag-"+tag)
 			}(tag)
 		}
 	}
@@ -598,7 +604,7 @@ func main() {
 			"rule": "the share of one shard runs once more under every custom build tag that constrains a non-test source file of the library (at most three; none on the unchanged tree)"}
 	}
 	if c.arch32 && os.Getenv("VERIF_NO_ARCH32") == "" {
-		cov["word_sizes"] = fmt.Sprintf("%d shards as 64-bit processes; the share of shard %d once more as a 32-bit process (GOARCH=386)", shards, int(seed()%int64(shards)))
+		cov["word_sizes"] = fmt.Sprintf("%d shards as 64-bit processes; the share of shard %d of %d once more as a 32-bit process (GOARCH=386)", shards, int(seed()%int64(shards))*extraDiv, shards*extraDiv)
 	}
 	cov["exhaustive"] = exhaustive && evaluations > 0
 	if len(excluded) > 0 {
